@@ -145,6 +145,19 @@ def streams(ctx):
     ctx.run_cases(DEC, "decode-zones-x-instants", dec + [("UTC", 1.7e9, ""), ("UTC", 1.7e9, "zz"), ("UTC", 1.7e9, "00"), ("UTC", 1.7e9, "ffffffff")],
                   exhaustive=False, sample_every=max(1, len(dec) // 2))
     ctx.run_cases(RT, "encode-then-decode", rt, exhaustive=False, sample_every=max(1, len(rt) // 2))
+    # ONE process living through a local midnight (and through a UTC midnight that is not a local one): "today" must follow the clock
+    import datetime as _dt
+    from zoneinfo import ZoneInfo
+    across = []
+    for zone in ("Pacific/Kiritimati", "Asia/Kathmandu", "Asia/Kolkata", "America/New_York", "Pacific/Pago_Pago", "Asia/Jerusalem", "UTC"):
+        for k in range(ctx.n(3, 20)):
+            day = _dt.datetime(2025, rng.randrange(1, 13), rng.randrange(1, 28), tzinfo=ZoneInfo(zone))
+            mid = day.timestamp()                      # a local midnight
+            utc_mid = (int(mid) // 86400 + 1) * 86400  # the next UTC midnight
+            for t in (mid - 600, mid + 600, mid + 3600, utc_mid - 600, utc_mid + 600, mid + 86400 - 600, mid + 86400 + 600):
+                for s in ("00:05", "12:00", "23:55"):
+                    across.append((zone, float(t), s))
+    ctx.run_cases(RT, "one-process-across-local-and-utc-midnights", across, exhaustive=False, sample_every=max(1, len(across) // 2))
     mal = [(rng.choice(Z.ZONES), float(rng.randrange(1_700_000_000, 1_800_000_000)), s) for s in MALFORMED]
     alpha = "0123456789:: \tax-"
     for _ in range(ctx.n(2000, 20000)):
